@@ -52,6 +52,8 @@ fn k_builtin_sets() {
     assert!(PermissionSet::READONLY.has(Login) && PermissionSet::READWRITE.has(Login));
     assert!(!PermissionSet::READWRITE.has(CaAdmin) && !PermissionSet::READWRITE.has(CaDelete) && !PermissionSet::READWRITE.has(PubAdmin));
     assert!(!PermissionSet::TESTBED.has(Login));
+    // C20: the configuration shortcuts "read" / "update" never grant the login permission; a role must name it
+    assert!(!PermissionSet::CONF_READ.has(Login) && !PermissionSet::CONF_UPDATE.has(Login));
     // read-write contains read-only
     if PermissionSet::READONLY.has(q) { assert!(PermissionSet::READWRITE.has(q)); }
     // the update shortcut is exactly the three *-update permissions the code lists
